@@ -47,10 +47,29 @@ def inter (x y : Rect) : Option Rect :=
     else none
   else none
 
+/-- `int(x) or 1`: index 0, which a whole row / column starts at, is the first index -/
+def or1 (n : Nat) : Nat := if n = 0 then 1 else n
+
+/-- `rng[i] = z[i]` happens only where a strip was cut: an uncut side keeps the index of `rng` -/
+def narrow (z r : Nat) : Nat := if or1 z ≠ or1 r then z else r
+
 /-- `_split(base, rng)`: the up-to-four strips of `rng` outside `base`, in the order of the
 loop `('n1','n2',1), ('n2','n1',-1), ('r1','r2',1), ('r2','r1',-1)`; the loop narrows
-`rng` to the intersection as it goes, so the row strips only span the common columns. -/
+`rng` to the intersection as it goes, so the row strips only span the common columns.
+A side is cut when `(int(z[i]) or 1) != (int(rng[i]) or 1)`: a whole row (columns `0 … maxcol`) met by a
+rectangle that starts in column 1 leaves no strip to its left. -/
 def split (base rng : Rect) : List Rect :=
+  match inter base rng with
+  | none => [rng]
+  | some z =>
+    (if or1 z.c1 ≠ or1 rng.c1 then [⟨rng.sheet, rng.r1, rng.r2, rng.c1, z.c1 - 1⟩] else []) ++
+    (if or1 z.c2 ≠ or1 rng.c2 then [⟨rng.sheet, rng.r1, rng.r2, z.c2 + 1, rng.c2⟩] else []) ++
+    (if or1 z.r1 ≠ or1 rng.r1 then [⟨rng.sheet, rng.r1, z.r1 - 1, narrow z.c1 rng.c1, narrow z.c2 rng.c2⟩] else []) ++
+    (if or1 z.r2 ≠ or1 rng.r2 then [⟨rng.sheet, z.r2 + 1, rng.r2, narrow z.c1 rng.c1, narrow z.c2 rng.c2⟩] else [])
+
+/-- the strips without the `or 1`: every side that differs is cut (the code before the repair; `split` returns a
+sublist of it) -/
+def splitRaw (base rng : Rect) : List Rect :=
   match inter base rng with
   | none => [rng]
   | some z =>
